@@ -25,6 +25,7 @@ import (
 	"time"
 
 	"github.com/ipfs/boxo/bitswap/client/internal/messagequeue"
+	bswl "github.com/ipfs/boxo/bitswap/client/wantlist"
 	bsmsg "github.com/ipfs/boxo/bitswap/message"
 	pb "github.com/ipfs/boxo/bitswap/message/pb"
 	bsnet "github.com/ipfs/boxo/bitswap/network"
@@ -37,22 +38,35 @@ import (
 	mh "github.com/multiformats/go-multihash"
 )
 
-const nCids = 3
+const (
+	nCids = 3   // individually addressed CIDs c0..c2
+	nFill = 570 // filler CIDs, only added / cancelled in bulk (WF / CF): enough to make one send pass span several messages
+	nAll  = nCids + nFill
+	// entries per message in the multi-chunk scenarios: after the first message of a pass over nFill(+1)
+	// entries at least sendMessageCutoff (256) are still pending, and they all fit into the second one
+	chunkEntries = 300
+)
 
-var cids []cid.Cid
+var (
+	cids     []cid.Cid
+	cidIndex = map[cid.Cid]int{}
+	chunkMsg int // maxMessageSize admitting chunkEntries want entries
+)
 
 func init() {
-	for i := 0; i < nCids; i++ {
-		h, _ := mh.Sum([]byte{byte(i), 0x35}, mh.SHA2_256, -1)
-		cids = append(cids, cid.NewCidV1(cid.Raw, h))
+	for i := 0; i < nAll; i++ {
+		h, _ := mh.Sum([]byte{byte(i), byte(i >> 8), 0x35}, mh.SHA2_256, -1)
+		c := cid.NewCidV1(cid.Raw, h)
+		cids = append(cids, c)
+		cidIndex[c] = i
 	}
+	e := bsmsg.Entry{Entry: bswl.Entry{Cid: cids[nCids], Priority: 1 << 30, WantType: pb.Message_Wantlist_Block}, SendDontHave: true}
+	chunkMsg = chunkEntries * e.Size()
 }
 
 func cidx(c cid.Cid) int {
-	for i, v := range cids {
-		if v.Equals(c) {
-			return i
-		}
+	if i, ok := cidIndex[c]; ok {
+		return i
 	}
 	return -1
 }
@@ -80,7 +94,7 @@ func (o op) String() string {
 	switch o.K {
 	case "SL":
 		return "SL" + o.D.String()
-	case "RB", "W2", "C2":
+	case "RB", "W2", "C2", "WF", "CF":
 		return o.K
 	}
 	return o.K + strconv.Itoa(o.C)
@@ -88,7 +102,7 @@ func (o op) String() string {
 
 func (o op) model() bool { // does the call change the client's wants?
 	switch o.K {
-	case "WB", "WH", "BH", "CA", "W2", "C2":
+	case "WB", "WH", "BH", "CA", "W2", "C2", "WF", "CF":
 		return true
 	}
 	return false
@@ -103,7 +117,7 @@ func parseOp(s string) op {
 			panic("bad op " + s)
 		}
 		return op{K: k, D: d}
-	case "RB", "W2", "C2":
+	case "RB", "W2", "C2", "WF", "CF":
 		return op{K: k}
 	}
 	c, err := strconv.Atoi(s[2:])
@@ -239,7 +253,16 @@ func (m msgRec) String() string {
 	if m.full {
 		sb.WriteString("FULL ")
 	}
+	fw, fc := 0, 0
 	for i, e := range m.ents {
+		if e.c >= nCids {
+			if e.cancel {
+				fc++
+			} else {
+				fw++
+			}
+			continue
+		}
 		if i > 0 {
 			sb.WriteString(", ")
 		}
@@ -251,6 +274,9 @@ func (m msgRec) String() string {
 		default:
 			fmt.Fprintf(&sb, "want-have c%d", e.c)
 		}
+	}
+	if fw+fc > 0 {
+		fmt.Fprintf(&sb, " + %d filler wants, %d filler cancels", fw, fc)
 	}
 	sb.WriteString("}")
 	return sb.String()
@@ -277,6 +303,10 @@ func (x *exec) do(mq *messagequeue.MessageQueue, thr int, o op) {
 		mq.AddWants([]cid.Cid{cids[0]}, []cid.Cid{cids[1]})
 	case "C2":
 		mq.AddCancels([]cid.Cid{cids[0], cids[1]})
+	case "WF":
+		mq.AddWants(cids[nCids:], nil)
+	case "CF":
+		mq.AddCancels(cids[nCids:])
 	case "RB":
 		mq.RebroadcastNow()
 	case "RS":
@@ -367,9 +397,9 @@ func (x *exec) Main() {
 			}
 			vsched.Sleep(25 * time.Millisecond)
 		}
-		x.dump = mq.VerifDump(cids)
+		x.dump = mq.VerifDump(cids[:nCids])
 		tp, tb := mq.VerifTracked(cids)
-		for c := 0; c < nCids; c++ {
+		for c := 0; c < nAll; c++ {
 			x.tracked.peer[c], x.tracked.bcst[c] = tp[c], tb[c]
 		}
 		x.ev("queue idle: %s", x.dump)
@@ -400,8 +430,8 @@ func (x *exec) AtEnd(*vsched.Result) {}
 
 // want types: 0 none, 1 have, 2 block
 type cstate struct {
-	peer [nCids]int
-	bcst [nCids]bool
+	peer [nAll]int
+	bcst [nAll]bool
 }
 
 func (s *cstate) apply(o op) {
@@ -424,13 +454,21 @@ func (s *cstate) apply(o op) {
 	case "C2":
 		s.peer[0], s.bcst[0] = 0, false
 		s.peer[1], s.bcst[1] = 0, false
+	case "WF":
+		for c := nCids; c < nAll; c++ {
+			s.peer[c] = 2
+		}
+	case "CF":
+		for c := nCids; c < nAll; c++ {
+			s.peer[c], s.bcst[c] = 0, false
+		}
 	}
 }
 
 // expected returns, per CID, the set of acceptable receiver-side entries as a bit mask (bit t = type t acceptable).
-func (s *cstate) expected(have bool) [nCids]int {
-	var out [nCids]int
-	for c := 0; c < nCids; c++ {
+func (s *cstate) expected(have bool) [nAll]int {
+	var out [nAll]int
+	for c := 0; c < nAll; c++ {
 		switch {
 		case have:
 			t := s.peer[c]
@@ -452,14 +490,14 @@ func (s *cstate) expected(have bool) [nCids]int {
 }
 
 // receiver replays the successfully sent messages onto an empty want-list.
-func (x *exec) receiver() [nCids]int {
-	var r [nCids]int
+func (x *exec) receiver() [nAll]int {
+	var r [nAll]int
 	for _, m := range x.msgs {
 		if m.failed {
 			continue
 		}
 		if m.full {
-			r = [nCids]int{}
+			r = [nAll]int{}
 		}
 		for _, e := range m.ents {
 			if e.c < 0 {
@@ -535,8 +573,8 @@ type cdiff struct {
 	kind string
 }
 
-func diff(exp [nCids]int, recv [nCids]int) (ds []cdiff, text string) {
-	for c := 0; c < nCids; c++ {
+func diff(exp [nAll]int, recv [nAll]int) (ds []cdiff, text string) {
+	for c := 0; c < nAll; c++ {
 		if exp[c]&(1<<recv[c]) != 0 {
 			continue
 		}
@@ -559,6 +597,9 @@ func diff(exp [nCids]int, recv [nCids]int) (ds []cdiff, text string) {
 			k = "type-weaker"
 		}
 		ds = append(ds, cdiff{c, k})
+		if len(ds) > 4 {
+			continue // many fillers: the first few say it all
+		}
 		text += fmt.Sprintf(" c%d: peer has %s, client wants %s (%s);", c, tname[recv[c]], tname[want], k)
 	}
 	return ds, text
@@ -572,6 +613,8 @@ func touches(o op, c int) bool {
 	switch o.K {
 	case "W2", "C2":
 		return c == 0 || c == 1
+	case "WF", "CF":
+		return c >= nCids
 	case "WB", "WH", "BH", "CA":
 		return o.C == c
 	}
@@ -586,12 +629,12 @@ func (x *exec) features(d cdiff, res *vsched.Result) []string {
 		if w.o.K == "RB" {
 			rebro = true
 		}
-		if !touches(w.o, d.c) || w.o.K == "CA" || w.o.K == "C2" {
+		if !touches(w.o, d.c) || w.o.K == "CA" || w.o.K == "C2" || w.o.K == "CF" {
 			continue
 		}
 		// a want for the CID that is not ordered strictly before some cancel of the CID
 		for _, a := range x.calls {
-			if (a.o.K == "CA" || a.o.K == "C2") && touches(a.o, d.c) && !(w.ret >= 0 && w.ret < a.start) {
+			if (a.o.K == "CA" || a.o.K == "C2" || a.o.K == "CF") && touches(a.o, d.c) && !(w.ret >= 0 && w.ret < a.start) {
 				rewant = true
 			}
 		}
@@ -608,7 +651,7 @@ func (x *exec) features(d cdiff, res *vsched.Result) []string {
 	last := "none" // the last successfully sent message entry that mentions the CID
 	lastAt, cancelAt := -1, -1
 	for _, a := range x.calls {
-		if (a.o.K == "CA" || a.o.K == "C2") && touches(a.o, d.c) && a.start > cancelAt {
+		if (a.o.K == "CA" || a.o.K == "C2" || a.o.K == "CF") && touches(a.o, d.c) && a.start > cancelAt {
 			cancelAt = a.start
 		}
 	}
@@ -695,7 +738,7 @@ func (x *exec) Check(res *vsched.Result) *eng.Violation {
 func (x *exec) Outcome() string {
 	recv := x.receiver()
 	resend, cancels, multi := false, 0, false
-	var r [nCids]int
+	var r [nAll]int
 	for _, m := range x.msgs {
 		if len(m.ents) > 1 {
 			multi = true
@@ -719,7 +762,13 @@ func (x *exec) Outcome() string {
 			}
 		}
 	}
-	return fmt.Sprintf("recv=%v msgs=%d cancels=%d resend=%v multi=%v failed=%v stuck=%v", recv, len(x.msgs), cancels, resend, multi, x.failed, x.stuck)
+	fillHeld := 0
+	for c := nCids; c < nAll; c++ {
+		if recv[c] != 0 {
+			fillHeld++
+		}
+	}
+	return fmt.Sprintf("recv=%v fillers=%d msgs=%d cancels=%d resend=%v multi=%v failed=%v stuck=%v", recv[:nCids], fillHeld, len(x.msgs), cancels, resend, multi, x.failed, x.stuck)
 }
 
 // ---------------------------------------------------------------- scenarios
@@ -779,6 +828,17 @@ func scripts(thorough bool) []*script {
 	add(mk("two-cids-two-entry-messages", twoMsg, true, "W2 BH2", "C2", "WB1"), lo)
 	add(mk("nohave-mixed", bigMsg, false, "", "WH0 BH1", "CA0 WB1"), lo)
 	add(mk("three-producers", bigMsg, true, "", "WB0", "CA0", "BH0"), lo)
+	// --- E3: one send pass spanning several messages (sendMessage keeps looping while >= sendMessageCutoff = 256
+	// entries are pending): 570 filler CIDs added in bulk, 300 entries per message; a producer call on c0 lands
+	// between the chunks of the pass (SendMsg of a chunk is a scheduling point). State carried from one chunk to
+	// the next (the reused message, the cancel set, priorities) is what these scenarios reach.
+	add(mk("chunks-cancel-queued", chunkMsg, true, "WB0 SL50ms CA0 WF", "WB0|WH0|BH0|CA0"), 1)
+	add(mk("chunks-want-sent", chunkMsg, true, "WB0 SL50ms WF", "CA0|WH0|BH0|WB0 WB0|CA0"), 1)
+	add(mk("chunks-cancel-all", chunkMsg, true, "WB0 WF", "CF", "CA0 WB0"), 1)
+	if thorough {
+		add(mk("chunks-cancel-queued-b2", chunkMsg, true, "WB0 SL50ms CA0 WF", "WB0|WH0|BH0|CA0 WB0|CA0"), 2)
+		add(mk("chunks-nohave", chunkMsg, false, "WB0 BH1 SL50ms CA0 WF", "WB0|BH0|CA0|WH1"), 1)
+	}
 	f := add(mk("send-failure", bigMsg, true, "", "WB0 CA0", "WH1"), lo)
 	f.fail = true
 	// --- E3: systematic pairs on one CID: every one-call producer against every two-call producer, bound 1
@@ -809,7 +869,7 @@ func scenarios(thorough bool) []*vexp.Scenario {
 		}
 		out = append(out, &vexp.Scenario{
 			Name: s.name, BoundDelta: s.delta,
-			Cfg: vsched.Config{MaxSteps: 40000, MaxIdleFires: mi, SelectCost: 1},
+			Cfg: vsched.Config{MaxSteps: 400000, MaxIdleFires: mi, SelectCost: 1},
 			New: func() vexp.Exec { return &exec{sc: s} },
 		})
 	}
